@@ -13,7 +13,7 @@ INFO = {
     "outside": ["trees outside the corpus", "read subsets other than: everything (forward / reverse order), exactly one item, nothing", "histories longer than the inductive step's single operation are covered only through the all-caches-filled argument (DESIGN C03)", "hex/float/string values outside the candidate lists"],
     "stubs": [],
 }
-BUDGET = {"quick": 300, "thorough": 1100}
+BUDGET = {"quick": 300, "thorough": 800}
 
 
 def _dom(tier):
